@@ -30,8 +30,9 @@ type TransCfg struct {
 	RawMaxConns int      `json:"RawMaxConns"` // value given to the Transport (may be <= 0: normalisation)
 	RawMaxIdle  int      `json:"RawMaxIdle"`
 	UseRaw      bool     `json:"UseRaw"`
-	IOErr       bool     `json:"IOErr"` // dropped connections end with a read error other than EOF at the client
-	Forms       []string `json:"Forms"` // call forms the callers rotate through: call (default) / go / rt / stream
+	IOErr       bool     `json:"IOErr"`    // dropped connections end with a read error other than EOF at the client
+	CloseErr    bool     `json:"CloseErr"` // closing a connection whose peer is gone reports an error (as a TLS connection does)
+	Forms       []string `json:"Forms"`    // call forms the callers rotate through: call (default) / go / rt / stream
 }
 
 type TStep struct {
@@ -82,6 +83,7 @@ type TSvc struct {
 	run  *Run
 	mu   sync.Mutex
 	exec map[int]int
+	done map[int]int
 }
 
 type TArgs struct {
@@ -121,21 +123,34 @@ func (s *TSvc) Do(a *TArgs, r *TReply) error {
 	}
 	r.ID = a.ID
 	r.Addr = s.addr
+	s.mu.Lock()
+	if s.done == nil {
+		s.done = map[int]int{}
+	}
+	s.done[a.ID]++
+	s.mu.Unlock()
 	return nil
 }
 
+func (s *TSvc) doneCount(id int) int {
+	s.mu.Lock()
+	defer s.mu.Unlock()
+	return s.done[id]
+}
+
 type tcaller struct {
-	k       int
-	n       int // calls made
-	cur     int // id of the call in progress
-	addr    string
-	gid     uint64
-	done    chan struct{}
-	err     error
-	reply   TReply
-	running bool
-	got0    int // arrivals at the got gate before this call started
-	dctx    *deadlineCtx
+	k         int
+	n         int // calls made
+	cur       int // id of the call in progress
+	addr      string
+	gid       uint64
+	done      chan struct{}
+	err       error
+	reply     TReply
+	running   bool
+	got0      int // arrivals at the got gate before this call started
+	dctx      *deadlineCtx
+	abandoned int // id of the call the caller abandoned at its deadline and whose handler is still held (0: none)
 }
 
 type TransRun struct {
@@ -235,6 +250,7 @@ func (r *TransRun) dial(network, address, codec string) (*rpc.Conn, error) {
 		return nil, errDown
 	}
 	w := NewWire(nil, false)
+	w.closeErr = r.cfg.CloseErr
 	s.wires = append(s.wires, w)
 	defer time.Sleep(300 * time.Microsecond)
 	r.nextID++
@@ -551,10 +567,22 @@ func (r *TransRun) exec(st TStep) {
 		}
 		c.dctx.expire()
 		r.await("return of the caller whose context ended", func() bool { return r.finished(st.K) })
-		if s := r.servers[c.addr]; s != nil && s.svc.gate != nil {
-			s.svc.gate.release(key(c.cur), 0)
+		c.abandoned = c.cur
+	case "LateAnswer":
+		// the server gets done with the request of the caller's abandoned call; its late answer is read and discarded
+		c := r.callers[st.K]
+		if c == nil || c.abandoned == 0 {
+			return
 		}
-		time.Sleep(2 * time.Millisecond)
+		id := c.abandoned
+		c.abandoned = 0
+		if s := r.servers[c.addr]; s != nil && s.svc.gate != nil {
+			n0 := s.svc.doneCount(id)
+			s.svc.gate.release(key(id), 0)
+			r.await("handler of the abandoned call", func() bool { return s.svc.doneCount(id) > n0 })
+		}
+		time.Sleep(3 * time.Millisecond) // the answer travels and is dropped by the reader
+		r.add(&Ev{Ev: "env.late", C: st.K, Seq: -1, Sent: -1})
 	case "Register":
 		if r.gotGate != nil {
 			c := r.callers[st.K]
@@ -745,7 +773,7 @@ func (r *TransRun) trace() []*Ev {
 	for i, e := range evs {
 		switch e.Ev {
 		case "t.get", "t.idle.deq", "t.dial", "t.dead", "t.tick", "t.tick.end", "t.idle.close", "t.closeidle.active", "t.closeidle.idle", "t.idle.spare", "api.reg",
-			"t.close", "t.close.conn", "t.closed", "api.call", "api.ret", "api.closeidle", "api.closeidle.end", "env.kill", "env.restart", "env.drop", "obs.dupsignal", "obs.closing", "obs.end", "obs.dupexec":
+			"t.close", "t.close.conn", "t.closed", "api.call", "api.ret", "api.closeidle", "api.closeidle.end", "env.kill", "env.restart", "env.drop", "env.late", "obs.dupsignal", "obs.closing", "obs.end", "obs.dupexec":
 			out = append(out, e)
 		case "t.retire":
 			// look ahead: was it enqueued or closed for lack of room?
